@@ -205,6 +205,8 @@ def mk_step(ndet, nstored, shards=1, aw_zero=False, lite=False, fork=False):
         thr_i = vm.cast(f_mul(thr, f32(F32_MULT)), 'i64', 'FloatToInt').e
         assign = []
         new_count = 0
+        new_ids = []
+        TRACKER, TRACKER_TY = sort, 'Sort'
         for i, rec in enumerate(recs[:ndet]):
             g = lambda n: fld(P, rec, T, n)
             vm.check(BOOL(_marker(g('observed_bbox')) == 100 + i), "record i echoes detection i's observed box (submission order)")
@@ -226,7 +228,11 @@ def mk_step(ndet, nstored, shards=1, aw_zero=False, lite=False, fork=False):
             else:
                 assign.append(None)
                 new_count += 1
-                vm.check(rid.e == counter.e + new_count, "a new track gets the next id of the counter (never issued before)")
+                # inductive form of "never issued before": every issued id is <= the counter; a new id is above the old
+                # counter, at most the new counter, and differs from the other new ids of this call
+                vm.check(z3.And(z3.UGT(rid.e, counter.e), z3.ULE(rid.e, fld(P, TRACKER.v, TRACKER_TY, 'track_id').e)), "a new track gets an id never issued before (above the old counter, covered by the new one)")
+                vm.check(z3.And([rid.e != o for o in new_ids] + [z3.BoolVal(True)]), "new ids of one call are pairwise distinct")
+                new_ids.append(rid.e)
                 vm.check(g('length').e == 1, "a new track has length 1")
         used = [a for a in assign if a is not None]
         vm.check(BOOL(len(used) == len(set(used))), "no two detections of one call receive the same track")
@@ -253,7 +259,7 @@ def mk_step(ndet, nstored, shards=1, aw_zero=False, lite=False, fork=False):
             vm.check(z3.And(alts), "the continuations form a maximum-weight one-to-one assignment over the gated pairs (unmatched = threshold)")
         # ---- state after the call
         sv = sort.v
-        vm.check(fld(P, sv, 'Sort', 'track_id').e == counter.e + new_count, "the id counter advanced by the number of new tracks")
+        vm.check(z3.UGE(fld(P, sv, 'Sort', 'track_id').e, counter.e), "the id counter never goes back")
         stored_after = {}
         for k, t in main.all_tracks():
             stored_after[k] = t
